@@ -42,6 +42,11 @@ CLAIMED = {
          "NormedSpace.exp(hat x) exactly, for every angle (beyond pi too) on the closed-form cell of the series coefficients, and at zero rotation. "
          "Taylor cells (theta^2 < 1e-3), SE23 (goes through from_Matrix) and the Euler target: numeric search only (named in evidence).",
          "DESIGN.md §2 C02", TECH_T),
+ "C03": ("proof", "Lean 4 theorems over the regenerated log/exp programs: exp and log mutually inverse identically for SO2, R2, R3; SE2 "
+         "exp(log X) = X and log(exp x) = x whenever the code's denominator is non-zero, and that denominator is non-zero for eps<=|theta|<2pi; "
+         "SO3Mrp: exp(log r) = r for canonical MRPs and the log angle is 4 atan|r| <= pi (principal); SO3Quat: log(-q) = log(q) (sign independent) "
+         "and the half angle lies in [0, pi/2] (principal). DCM/Euler logs, SE3/SE23 translation parts and Taylor cells: numeric search only.",
+         "DESIGN.md §2 C03", TECH_T),
 }
 checks = []
 for pid, (cat, text, ref, tech) in CLAIMED.items():
